@@ -291,12 +291,35 @@ func (s *SessionStore) Remove(ctx context.Context, session *Session) {
 		return
 	}
 
+	// A participant may have joined between the moment the last one left
+	// and now (see AddParticipant): the session is alive again, keep it.
+	if session.ParticipantCount() != 0 {
+		return
+	}
+
 	delete(s.sessions, globalID)
 	session.Close()
 
 	s.ids.Reuse(session.ID)
 
 	instrumentDecreaseSessionGauge(session.AppKey)
+}
+
+// AddParticipant adds the participant to the session, provided the session
+// is still registered. Looking the session up and adding the participant is
+// atomic with respect to Remove, so that nobody joins a session that is being
+// ended by the departure of its last participant.
+func (s *SessionStore) AddParticipant(session *Session, p *Participant) bool {
+	s.initOnce.Do(s.init)
+	s.mutex.RLock()
+	defer s.mutex.RUnlock()
+
+	if registered, ok := s.sessions[s.GlobalSessionID(session.ID)]; !ok || registered != session {
+		return false
+	}
+
+	session.AddParticipant(p)
+	return true
 }
 
 func (s *SessionStore) GetByGlobalID(v string) (*Session, bool) {
